@@ -103,3 +103,10 @@ def run(ctx):
             # includes: raised NegativeCycle while must_answer
             cc.report_vs_oracle(ctx, p, im, ref, "must_answer program", state, cc.impl_default)
         # either: recorded only
+    # the fast classifier against the specification Sem.classify (small propositional instances)
+    small = [i for i, p in enumerate(progs) if gp.estimate_choices(p) <= 5 and not p.features()["first_order"]][:ctx.n(40, 400)]
+    spec = so.oracle_eval(ctx, [progs[i] for i in small], "classspec")
+    bad = [i for i, s in zip(small, spec) if s != klass[i]]
+    ctx.cov["classspec_vs_class_checked"] = len(small)
+    for i in bad[:3]:
+        ctx.broken.append("correspondence:SemFast.fast_classify differs from Sem.classify on %s" % progs[i].text().replace("\n", " "))
